@@ -4,6 +4,7 @@ package main
 
 import (
 	"go/types"
+	"reflect"
 	"strings"
 )
 
@@ -157,7 +158,14 @@ func regStd() {
 	})
 	regEnv("io.ReadAll", "io.ReadAll(r): arbitrary bytes or error", func(ex *Executor, st *State, c *callCtx) []callResult {
 		b, err := ex.Fresh("body", SStr), ex.freshErr(st, "readall")
+		st.Emit("IO.ReadAll", []Value{c.Args[0]}, []Value{&BytesV{T: b}, err}, ex.pos(c.Pos))
 		return one(st, &TupleV{V: []Value{&BytesV{T: b}, err}})
+	})
+	regEnv("(*net/http.Client).Get", "client.Get(url): a response, or nil and an error (event HTTP.Get(url) -> (resp, err))", func(ex *Executor, st *State, c *callCtx) []callResult {
+		resp, err := ex.Fresh("resp", SInt), ex.freshErr(st, "httpget")
+		st.Fact(Eq(isNilT(err), nonNil(resp)))
+		st.Emit("HTTP.Get", []Value{c.Args[len(c.Args)-1]}, []Value{resp, err}, ex.pos(c.Pos))
+		return one(st, &TupleV{V: []Value{resp, err}})
 	})
 	regEnv("(*net/http.Request).ParseForm", "r.ParseForm(): arbitrary error", func(ex *Executor, st *State, c *callCtx) []callResult {
 		return one(st, ex.freshErr(st, "parseform"))
@@ -489,7 +497,30 @@ func regStd() {
 					cell := ex.newCell(st, &MapData{Base: base, T: mt})
 					ex.store(st, pv, &MapV{Cell: cell})
 				} else {
-					ex.store(st, pv, ex.havoc(st, pt, "unjson"))
+					hv := ex.havoc(st, pt, "unjson")
+					// a string field decodes to the JSON string of the member its tag
+					// names, verbatim (json_str); other field types stay arbitrary
+					if sv, ok := hv.(*StructV); ok {
+						if bt := ex.bytesTerm(st, c.Args[0]); bt != nil {
+							stt := pt.Underlying().(*types.Struct)
+							for i := 0; i < stt.NumFields(); i++ {
+								ft, isT := sv.F[i].(*Term)
+								if !isT || ft.S != SStr || !stt.Field(i).Exported() {
+									continue
+								}
+								name := stt.Field(i).Name()
+								if tag := reflect.StructTag(stt.Tag(i)).Get("json"); tag != "" {
+									if n := strings.Split(tag, ",")[0]; n == "-" {
+										continue
+									} else if n != "" {
+										name = n
+									}
+								}
+								st.Fact(Implies(isNilT(err), Eq(ft, App("json_str", SStr, bt, StrLit(name)))))
+							}
+						}
+					}
+					ex.store(st, pv, hv)
 				}
 			}
 		}
